@@ -15,8 +15,9 @@ LEVEL_TEXT = ('Decides clauses C02-a..f: no panic sink and no unguarded unsafe o
               'Request::read validates the same bytes before storing them; the request header table is case-consistent and recognised case-insensitively (and answers'
               ' `custom header` only after every case-insensitive name comparison failed), Method::from_bytes/as_str are inverse; the byte count returned by the '
               'first read bounds what is parsed; `Headers::get(name)` answers None only after the standard header table was consulted for the name; no integer '
-              'FromStr (`str::parse`, which accepts a leading `+`) is applied to wire text in Request::read. Decides these clauses, not the faithfulness of every '
-              'parsed field for all byte strings.')
+              'FromStr (`str::parse`, which accepts a leading `+`) is applied to wire text in Request::read; the value of a query pair yielded by QueryParams::iter '
+              "runs from after the pair's first `=` to the end of the pair (not one item of a split at every `=`, no other upper bound). Decides these clauses, not "
+              'the faithfulness of every parsed field for all byte strings.')
 
 STOP = [r"^ohkami::response::", r"<impl ohkami::response::Response>", r"<ohkami::response::Response as "]
 
@@ -27,7 +28,7 @@ READ_VALIDATES_PATH = {"kind": "sibling", "fn": r"^ohkami::request::Request::rea
 
 AUDIT = [
     # ---- Request::read
-    {"fn": r"^ohkami::request::Request::\w+::\{closure#0\}$", "sink": r"^panic-call:(slice|array) index$|^assert:BoundsCheck$",
+    {"fn": r"^ohkami::request::Request::\w+::\{closure#0\}$", "sink": r"^panic-call:(slice|array) index$|^assert:BoundsCheck$|^panic-call:split_at(_mut)?$",
      "guards": [{"kind": "operand", "which": "arg1", "from": {"call": r"Future>?::poll$", "payload": "Ok"}, "max_offset": 0, "dominated": False},
                 {"kind": "accumulated_read_count"}],
      "reason": "`buf[..n]` / `buf[n..]` with n = the count returned by read(&mut buf), or the sum of the counts of reads into buf[n..]: <= buf.len() by AsyncRead's contract"},
@@ -87,6 +88,7 @@ def run(ck, progs):
         ck.guard("C02-d USED-RESULT", lambda: c02d(ck, prog))
         ck.guard("C02-e MUSTPASS header lookup", lambda: c02e(ck, prog))
         ck.guard("C02-f API-MISUSE numeric header", lambda: c02f(ck, prog))
+        ck.guard("C02-g PAIR query value extent", lambda: c02g(ck, prog))
     ck.config = None
 
 
@@ -298,3 +300,30 @@ def c02f(ck, prog):
     ck.ob(R, "Request::read:no-integer-FromStr", ok, bad[0][0].loc(bad[0][1].sp) if bad else rd.loc(None),
           "" if ok else "Request::read converts header text with `%s`: integer FromStr accepts a leading `+`, so `Content-Length: +5` is taken as 5 instead of being refused with 400" % (bad[0][1].callee),
           how="no integer FromStr among the calls of Request::read (%d bodies): digits are folded explicitly" % len(bodies))
+
+
+def c02g(ck, prog):
+    """`each name=value pair of the query is delivered as sent`: a pair ends at `&`, its name at the *first* `=`; the value
+    is everything after that `=`, later `=` included (`token=YWJj==`, `next=/a?b=c`). In the function that yields the pairs
+    of QueryParams::iter the value must not be one item of an unbounded split at `=` and must not have an upper bound
+    other than the end of the pair."""
+    R = "C02-g PAIR query value extent"
+    it = prog.one(r"^ohkami::request::query::QueryParams::iter$")
+    n = 0
+    for g in [it] + prog.descendants(it.key):
+        for bb, kind, pl in paths.ret_sites(g):
+            if kind != "Some" or not (isinstance(pl, list) and pl[0] == "agg"):
+                continue
+            for leaf in paths.leaf_values(g, pl[2][0]):
+                if not (leaf[0] == "other" and isinstance(leaf[1], list) and leaf[1][0] == "agg" and leaf[1][1].get("k") == "tuple" and len(leaf[1][2]) == 2):
+                    continue
+                n += 1
+                d = decision.describe_deep(g, leaf[1][2][1], 10)
+                unbounded_split = re.search(r"(next|nth|next_back|last)\((by_ref\()?(split|rsplit|split_terminator|split_inclusive)\(", d) is not None
+                capped = re.search(r"Range\{|RangeTo\{|RangeInclusive|RangeToInclusive", d) is not None
+                ok = not unbounded_split and not capped
+                ck.ob(R, "value:to-the-end-of-the-pair", ok, g.loc(g.blocks[bb]["t"].get("sp")),
+                      "" if ok else "the value of a query pair is `%s`: %s, so a value that itself contains `=` (`token=YWJjZA==`, `redirect=/login?next=/home`) is cut at its first `=`"
+                      % (d[:90], "one item of a split at every `=`" if unbounded_split else "a slice with an upper bound"),
+                      how="value = the pair from after its first `=` to its end: %s" % d[:70])
+    ck.floor(R, "(name, value) pairs built by QueryParams::iter", n, 1)
